@@ -39,6 +39,7 @@ RULE = (
     'option point.'
 )
 RULE += (' ' + 'Also generated: members of a nested enum (Outer.Mode) and of an unrelated top-level enum with the same name and members; shared set nodes.')
+RULE += (' ' + 'Round 7: multi-line strings with carriage returns; a sub-fixture named like an imported module.')
 RULE += (' ' + 'Round 6: members of enums with an int / str mix-in (IntEnum, (str, Enum)).')
 RULE += (' ' + 'Rounds 3-5: complex unshared node inside a sub-fixture; nested sub-fixtures in every dict order; same-named modules (harness.vuni.fractions vs fractions); named tuples; parameters/classes whose names become Python keywords. The listed sub-fixture finding applies only when sharing crosses a sub-fixture boundary.')
 ASSUMPTIONS = [
@@ -169,6 +170,9 @@ def strategy_(draw, tier):
   return {'kind': 'config', 'recipe': recipe,
           'gen': draw(st.sampled_from(['new_codegen', 'auto_config_codegen'])),
           'subs': subs, 'mec': draw(st.sampled_from([None, None, 0, 1, 2, 3])),
+          # now and then the first sub-fixture is named like a module the generated code imports
+          # (it must be renamed or rejected, not emitted so that it shadows the import)
+          'sub_alias': draw(st.sampled_from([None] * 6 + ['things', 'fdl', 'tags'])) if subs else None,
           'history': draw(st.booleans())}
 
 
@@ -302,7 +306,7 @@ def check(case):
     for j, s in enumerate(case['subs']):
       b = bs[s % len(bs)]
       if not any(b is x for x in sub_fixtures.values()):
-        sub_fixtures[f'sub_fixture_{j}'] = b
+        sub_fixtures[case.get('sub_alias') if j == 0 and case.get('sub_alias') else f'sub_fixture_{j}'] = b
   idn = C.identity_nodes(root)
   sharing = any(len(ps) > 1 for _, ps in idn.values())
   has_tags = any(isinstance(v, fdl.Buildable) and any(v.__argument_tags__.values()) for _, v in C.walk(root))
